@@ -20,7 +20,7 @@ import math
 import re
 from collections import Counter, defaultdict
 
-from .core import H, rng_for, digest, sha, jdump, HarnessError
+from .core import H, rng_for, digest, sha, jdump, HarnessError, raised_in_harness
 from . import gen_sampler, gen_mol
 from .gen_sampler import norm_key, is_complement, complements, materialise
 
@@ -476,8 +476,7 @@ def run_history(scenario, only=None):
     last_molecule = {}
 
     def templates_for(idx):
-        if sc.get("ctor") == "shared_dict" and idx in shared_dicts:
-            return shared_dicts[idx]
+        # the oracle's own parse, never handed to the code under test (template edits are mirrored onto it)
         if idx not in parsed:
             cfg = sc["configs"][idx]
             parsed[idx] = read_fragments(cfg["string"], all_atom=cfg["all_atom"])
@@ -485,13 +484,7 @@ def run_history(scenario, only=None):
 
     edited = set()
 
-    def _apply_template_edit(idx):
-        cfg = sc["configs"][idx]
-        if sc.get("ctor") != "shared_dict":
-            return
-        if idx not in shared_dicts:
-            shared_dicts[idx] = read_fragments(cfg["string"], all_atom=cfg["all_atom"])
-        lib = shared_dicts[idx]
+    def _edit_one(lib, cfg):
         for name in sorted(lib):
             graph = lib[name]
             for node in sorted(graph.nodes):
@@ -501,12 +494,21 @@ def run_history(scenario, only=None):
                         all(graph.edges[node, nb].get("order", 1) == 1 for nb in graph[node])
                     if plain:
                         data["element"] = "Si"
-                        edited.add(idx)
-                        return
+                        return True
                 elif not str(data.get("atomname", "")).endswith("x"):
                     data["atomname"] = str(data.get("atomname")) + "x"
-                    edited.add(idx)
-                    return
+                    return True
+        return False
+
+    def _apply_template_edit(idx):
+        cfg = sc["configs"][idx]
+        if sc.get("ctor") != "shared_dict":
+            return
+        if idx not in shared_dicts:
+            shared_dicts[idx] = read_fragments(cfg["string"], all_atom=cfg["all_atom"])
+        if _edit_one(shared_dicts[idx], cfg):
+            _edit_one(templates_for(idx), cfg)      # the same edit on the oracle's own copy
+            edited.add(idx)
 
     checked_templates = set()
 
@@ -727,6 +729,8 @@ def run_history(scenario, only=None):
         except HarnessError:
             raise
         except Exception as exc:  # noqa - dead ends are outcomes
+            if raised_in_harness(exc):
+                raise HarnessError("harness bug: %s: %s" % (type(exc).__name__, exc))
             event["out"] = _outcome(exc)
         finally:
             if inj is not None:
